@@ -157,8 +157,54 @@ func init() {
 
 		c.Rule("C42c roll-over: distributeIprpcRewards calls handleNoIprpcRewardToProviders with all spec funds under len(specCuMap)==0 and returns, and with the single spec fund under spec-not-in-map, from where no payout or tax call is reachable in that iteration; handleNoIprpcRewardToProviders re-adds each fund with addSpecFunds(fund.Spec, fund.Fund, 1, false)")
 		rolls := c.CallsIn(dir, hno, false)
-		if len(rolls) != 2 {
+		if len(rolls) > 2 || len(rolls) == 0 {
 			c.Undecided("C42c: expected two roll-over calls in distributeIprpcRewards, found %d", len(rolls))
+		}
+		// the spec-not-in-map outcome must roll that spec over before the iteration ends
+		nMiss := 0
+		for _, b := range dir.Blocks {
+			if len(b.Instrs) == 0 {
+				continue
+			}
+			iff, ok := b.Instrs[len(b.Instrs)-1].(*ssa.If)
+			if !ok {
+				continue
+			}
+			// cond is (or is a disjunction starting with) the ok result of specCuMap[spec]
+			v, okOnTrue := stripNot(iff.Cond, true)
+			fTrue := ir.Desc(v)
+			if !(strings.HasPrefix(fTrue, "param#2[") && strings.HasSuffix(fTrue, "]#1")) {
+				continue
+			}
+			nMiss++
+			miss := b.Succs[1]
+			if !okOnTrue {
+				miss = b.Succs[0]
+			}
+			loop := innermostLoop(dir, b)
+			rolled := false
+			reach := ir.Reachable(miss, func(x *ssa.BasicBlock) bool { return loop != nil && (x == loop.Header || !loop.Blocks[x]) })
+			// every path from miss back to the header passes a roll-over call?
+			pass := map[*ssa.BasicBlock]bool{}
+			for _, s := range rolls {
+				pass[s.Instr.Block()] = true
+			}
+			if loop != nil {
+				avoid := ir.Reachable(miss, func(x *ssa.BasicBlock) bool { return pass[x] || !loop.Blocks[x] && x != loop.Header })
+				rolled = !avoid[loop.Header] || pass[miss]
+				if pass[miss] {
+					rolled = true
+				}
+			}
+			_ = reach
+			if rolled {
+				c.OK("C42c/distributeIprpcRewards/spec-not-served=>rolled-over-on-every-path", c.P.InstrPos(iff), "")
+			} else {
+				c.Fail("C42c/distributeIprpcRewards/spec-not-served=>rolled-over-on-every-path", c.P.InstrPos(iff), "a funded spec that nobody served is skipped without handleNoIprpcRewardToProviders: the month's record was already popped, so its funds are never paid, rolled over or sent to the community pool")
+			}
+		}
+		if nMiss != 1 {
+			c.Undecided("C42c: expected one branch on the spec's presence in the CU map, found %d", nMiss)
 		}
 		var paySites []Site
 		paySites = append(paySites, c.CallsByName(dir, false, "invoke:x/rewards/types.DualStakingKeeper.RewardProvidersAndDelegators")...)
@@ -241,7 +287,32 @@ func init() {
 			call := ir.CallOf(s.Instr)
 			left, pool := ir.DescN(call.Args[2], 8), ir.Desc(call.Args[3])
 			inLoop := innermostLoop(dir, s.Instr.Block()) != nil
-			if !inLoop && pool == "const(\"iprpc_pool\")" && strings.Contains(left, "Coins.Sub)(") && strings.Contains(left, "Coins.Add)(") {
+			// leftovers is a loop accumulator: every in-loop value is leftovers.Add(fund.Sub(used))
+			accumulates := false
+			if phi, ok := unconv(call.Args[2]).(*ssa.Phi); ok {
+				accumulates = true
+				nAdd := 0
+				for _, lf := range phiLeaves(phi) {
+					if ir.Desc(lf) == newCoins {
+						continue
+					}
+					add, _ := callOfValue(lf)
+					if add == nil || ir.CalleeName(&add.Call) != coinsT+"Add" {
+						accumulates = false
+						continue
+					}
+					_, fromAcc := unconv(add.Call.Args[0]).(*ssa.Phi)
+					sub, _ := callOfValue(unconv(add.Call.Args[1]))
+					if !fromAcc || sub == nil || ir.CalleeName(&sub.Call) != coinsT+"Sub" || !strings.HasSuffix(ir.Desc(sub.Call.Args[0]), ".Fund") {
+						accumulates = false
+					}
+					nAdd++
+				}
+				if nAdd == 0 {
+					accumulates = false
+				}
+			}
+			if !inLoop && pool == "const(\"iprpc_pool\")" && accumulates {
 				c.OK("C42d/distributeIprpcRewards/leftovers=Σ(fund−used)->community-pool", c.P.InstrPos(s.Instr), "")
 			} else {
 				c.Fail("C42d/distributeIprpcRewards/leftovers=Σ(fund−used)->community-pool", c.P.InstrPos(s.Instr), "community pool receives "+trunc(left, 160)+" from "+pool)
